@@ -139,7 +139,25 @@ TEMPLATES.append(
          "m": {"e": {"k": "Element", "kw": {"additionalItems": {"k": "Ref", "name": "Extra"}, "contains": {"k": "Ref", "name": "Cont"}}}, "required": False, "source": None},
          "n": {"e": {"k": "Not", "element": {"k": "Ref", "name": "Dep"}}, "required": False, "source": None}},
          "dependencies": {"l": {"k": "Ref", "name": "Dep"}}}}})
-TEMPLATE_VALUES = [{"l": ["a"], "m": [{"z": 1}], "n": 1}, {"l": ["a"], "d": 3}, {"m": [{}]}, {"n": {"d": "s"}},
+TEMPLATES.append(
+    # caller definitions that LOOK like elements of the tree but are not == to them (false/0, true/1, 1/1.0 inside enum / const / default):
+    # nothing may be replaced by a reference to them
+    {"classes": {"Settings": {"k": "Obj", "name": "Settings", "base": None, "doc": None, "kw": {}, "props": {
+        "enabled": {"e": {"k": "Element", "kw": {"enum": [False, True]}}, "required": False, "source": None},
+        "flag": {"e": {"k": "Element", "kw": {"const": True}}, "required": False, "source": None},
+        "bits": {"e": {"k": "Array", "items": {"k": "Element", "kw": {"const": 0}}, "kw": {}}, "required": False, "source": None},
+        "same": {"e": {"k": "Element", "kw": {"enum": [0, 1]}}, "required": False, "source": None}}}},
+     "order": ["Settings"], "root": {"k": "Ref", "name": "Settings"},
+     "defs": {"bit": {"k": "Element", "kw": {"enum": [0, 1]}}, "one": {"k": "Element", "kw": {"const": 1}}, "no": {"k": "Element", "kw": {"const": False}}}})
+TEMPLATES.append(
+    # a property whose explicit JSON name is the empty string (falsy): the tree and the document must name the same member
+    {"classes": {"Blank": {"k": "Obj", "name": "Blank", "base": None, "doc": None, "kw": {}, "props": {
+        "blank": {"e": {"k": "String", "kw": {}}, "required": False, "source": ""}}}},
+     "order": ["Blank"], "root": {"k": "Array", "items": [{"k": "Ref", "name": "Blank"},
+                                                          {"k": "Element", "kw": {"properties": {"blank": {"e": {"k": "Integer", "kw": {}}, "required": True, "source": ""}}}}], "kw": {}}})
+TEMPLATE_VALUES = [{"enabled": True}, {"enabled": 1}, {"flag": True}, {"flag": 1}, {"bits": [0]}, {"bits": [False]}, {"same": 1}, {"same": True},
+                   [{"": 5}], [{"blank": 5}], [{"blank": "s"}, {"blank": 1}], [{}, {"": 1}], [{}, {}],
+                   {"l": ["a"], "m": [{"z": 1}], "n": 1}, {"l": ["a"], "d": 3}, {"m": [{}]}, {"n": {"d": "s"}},
                    [{"a": "x"}, {"a": 1}], [{"a": 1}, {"a": 1}], [{"class": "c", "n": 1, "extra": 0}], [{"class": "c", "extra": 0, "p 1": {"class": "d", "extra": 1}}, {"class": "c", "extra": 1}, {"class": "e", "extra": 2}],
                    [{"class_": "c", "extra": 0}], {"x": 1, "class": "c", "y": 2}, {"class": "c", "y": 2}, {"x": 1, "y": 2}, {"x": 1, "class_": "c", "y": 2},
                    {"x": 1}, {}, [{"class": "c", "extra": 0, "zzz": 1}]]
@@ -186,7 +204,10 @@ def run(tier, seed, replay=None):
         elems, _ = walk(root)
         defs = None
         bare = not replay and di < len(TEMPLATES)
-        if not replay and not bare and rng.random() < 0.3 and len(elems) > 1:
+        if doc.get("defs"):
+            defs = {k: dslgen.build({"classes": {}, "order": [], "root": s})[0] for k, s in doc["defs"].items()}
+            stats["with_definitions_arg"] += 1
+        if defs is None and not replay and not bare and rng.random() < 0.3 and len(elems) > 1:
             picks = [e for e in rng.sample(elems[1:], min(2, len(elems) - 1)) if not isinstance(e, ObjectMeta)]
             if picks:
                 defs = {"def%d" % i: e for i, e in enumerate(picks)}
@@ -216,7 +237,9 @@ def run(tier, seed, replay=None):
                 fresh_root, fresh_classes = dslgen.build(doc)
                 f_elems, _ = walk(fresh_root)
                 idx = {id(e): i for i, e in enumerate(elems)}
-                f_args = {k: f_elems[idx[id(e)]] for k, e in args.items()} if args else None
+                f_args = {k: (f_elems[idx[id(e)]] if id(e) in idx else
+                              dslgen.build({"classes": {}, "order": [], "root": doc["defs"][k]})[0])       # a definition from outside the tree
+                          for k, e in args.items()} if args else None
                 f_roots = [fresh_root] + [fresh_classes[r.__name__] for r in roots[1:]]
                 fresh = serialize_json(*f_roots, definitions=f_args) if f_args else serialize_json(*f_roots)
                 if json.dumps(again, sort_keys=True, default=repr) != json.dumps(fresh, sort_keys=True, default=repr):
